@@ -259,7 +259,8 @@ type Set struct {
 	Name         string `json:"name"`
 	Members      []Ref  `json:"members"`
 	InInjectFile bool   `json:"in_inject_file,omitempty"`
-	Inline       bool   `json:"inline,omitempty"` // written as wire.NewSet(...) wherever referenced
+	Inline       bool   `json:"inline,omitempty"`   // written as wire.NewSet(...) wherever referenced
+	AliasOf      int    `json:"alias_of,omitempty"` // id+1 of the set variable this one is an alias of (var A = B); 0 = none
 }
 
 // Param is an injector parameter.
